@@ -111,7 +111,12 @@ fn sim_read(os: &mut SimOs, p: &str, fault: Option<FaultSpec>) -> io::Result<Str
     if let Some(f) = fault {
         return e(f.errno);
     }
+    // "f/", "f/." , "f//": the spelling demands a directory; on a regular file that is ENOTDIR
+    let demands_dir = p.ends_with('/') || p.ends_with("/.");
     let p = npath(p)?;
+    if demands_dir && matches!(os.nodes.get(&p), Some(Node::File(_))) {
+        return e(libc::ENOTDIR);
+    }
     os.walk_parent(&p).or_else(e)?;
     if p.is_empty() {
         return e(libc::EISDIR);
@@ -544,7 +549,12 @@ fn sim_read_bytes(os: &mut SimOs, p: &str, fault: Option<FaultSpec>) -> io::Resu
     if let Some(f) = fault {
         return e(f.errno);
     }
+    // "f/", "f/." , "f//": the spelling demands a directory; on a regular file that is ENOTDIR
+    let demands_dir = p.ends_with('/') || p.ends_with("/.");
     let p = npath(p)?;
+    if demands_dir && matches!(os.nodes.get(&p), Some(Node::File(_))) {
+        return e(libc::ENOTDIR);
+    }
     os.walk_parent(&p).or_else(e)?;
     if p.is_empty() {
         return e(libc::EISDIR);
